@@ -32,7 +32,9 @@ import tlc
 NONE_TOK = ["\\None"]
 DIALECTS = [{}, {"delimiter": ";"}, {"quoting": csv.QUOTE_ALL}, {"quotechar": "'"}]
 NUMSETS = [[0, -0.0, 5e-324], [float("inf"), float("-inf"), 1.7976931348623157e308], [0, -1, 2 ** 53],
-           [1.5, -2.25, 1e-300], [3, 0.1, -0.0]]
+           [1.5, -2.25, 1e-300], [3, 0.1, -0.0],
+           # ints around the powers of two where float64 stops representing every integer (2**53) and the next binades
+           [2 ** 53 + 1, -(2 ** 53) - 1, 2 ** 54 - 1], [2 ** 54 + 1, 2 ** 63 - 1, -(2 ** 64) - 1], [2 ** 53 - 1, 2 ** 55 + 3, 2 ** 53 + 2]]
 
 
 def s_(chars):
@@ -200,8 +202,10 @@ def rand_number(rng):
                 return f
     if x < 0.6:
         return rng.choice([0, -0.0, 0.0, float("inf"), float("-inf"), 5e-324, -5e-324, 2.2250738585072014e-308, 1.7976931348623157e308])
-    if x < 0.8:
+    if x < 0.74:
         return rng.randint(-2 ** 53, 2 ** 53)
+    if x < 0.8:         # a few units around a power of two between 2**50 and 2**70: where "is this int exactly a float" changes its answer
+        return rng.choice([1, -1]) * (2 ** rng.randint(50, 70) + rng.randint(-3, 3))
     if x < 0.9:
         return rng.randint(-2 ** 70, 2 ** 70)
     return None
